@@ -1,4 +1,5 @@
 import Pcore.Model.Print
+import Pcore.Generated.UnicodeCase
 /-!
 # A fragment of the types: what they print (`Parameters()`) and how their text resolves back (positional creators)
 
@@ -32,8 +33,8 @@ Quirks mirrored: `Variant[T]` is `T`; `Array[0, 0]` / `Array[Unit, 0, 0]` is the
 `Array[Any, 0, 0]` keeps its element type; `Hash[0, 0]` is the empty hash type; three or four size arguments of `Hash`
 without key/value types are ignored; a negative minimum length of `String` is clamped to 0 and `String[0, default]` is
 `String`; `String['']` is `String`; `Optional['x']`/`NotUndef['x']` hold the exact-value String; `Enum[[…], …]` flattens
-a leading array, a trailing Boolean is the case-insensitivity flag (values are then lower-cased — ASCII only in this
-model), an empty Enum is the default Enum; `Regexp['']` is the default Regexp; a bound of `Float[…]` must be a Float value
+a leading array, a trailing Boolean is the case-insensitivity flag (values are then lower-cased: `strings.ToLower`), an
+empty Enum is the default Enum; `Regexp['']` is the default Regexp; a bound of `Float[…]` must be a Float value
 (an Integer is refused: `toFloat`), `Float[-1.7976931348623157e308, x]` prints `Float[default, x]`, `Float[0.0, -0.0]` is
 accepted (`0.0 > -0.0` is false) and keeps the signs of its zeros; a plain-string Struct key is optional exactly when the
 value type accepts `undef`, `String['a'] => T` is always a required key, duplicate member names are kept.
@@ -402,9 +403,9 @@ def sizes1 : Arg → Option (Int × Int)
   | .int n => newInt n i64max
   | _ => none
 
-def asciiLower (s : Str) : Option Str :=
-  if s.all (fun c => c.toNat < 128) then some (s.map fun c => if isUpper c then Char.ofNat (c.toNat + 32) else c)
-  else none
+/-- `strings.ToLower`: `unicode.ToLower` rune by rune (Go's simple case mapping over the table `unicode.CaseRanges`, regenerated
+    from the Go standard library into `Generated/UnicodeCase.lean`) -/
+def lowerStr (s : Str) : Str := s.map (Pcore.UnicodeCase.toLower Pcore.Generated.caseRanges)
 
 /-- `newEnumType3`: the values and the case-insensitivity flag -/
 def enumFlat : List Arg → Option (List Str × Bool)
@@ -431,7 +432,7 @@ def enumArgs (fuel : Nat) (args : List Arg) : Option (List Str × Bool) :=
 /-- `NewEnumType` -/
 def newEnum (vs : List Str) (ci : Bool) : Option Ty :=
   if vs.isEmpty then some (.enum [] false)
-  else if ci then (vs.mapM asciiLower).map fun l => .enum l true
+  else if ci then some (.enum (vs.map lowerStr) true)
   else some (.enum vs false)
 
 /-- `newPatternType3` -/
